@@ -317,14 +317,17 @@ theorem SameV_qConv {P} (s : St) (cs : List String) (ids : IdSet) : SameV P s (q
   intro s c
   exact SameV.of_eq rfl rfl
 
-theorem W_cdF (ids : IdSet) (t : Tag) : W (cdF ids t) = W t ∧ (cdF ids t).defn = t.defn := by
-  unfold cdF; split <;> exact ⟨rfl, rfl⟩
+-- CHANGED (conv): `cdF` takes `all`
+theorem W_cdF (all : Nat) (ids : IdSet) (t : Tag) : W (cdF all ids t) = W t ∧ (cdF all ids t).defn = t.defn := by
+  unfold cdF; split
+  · split <;> exact ⟨rfl, rfl⟩
+  · split <;> exact ⟨rfl, rfl⟩
 
 theorem SameV_cdMark {P} (s : St) (p : String × IdSet) : SameV P s (cdMark s p) := by
   unfold cdMark
   split
   · exact SameV.refl _ _
-  · exact SameV_map s (fun _ t => cdF p.2 t) (fun _ t => (W_cdF _ t).1) (fun _ t => (W_cdF _ t).2) _ rfl rfl
+  · exact SameV_map s (fun _ t => cdF s.all p.2 t) (fun _ t => (W_cdF _ _ t).1) (fun _ t => (W_cdF _ _ t).2) _ rfl rfl
 
 /-- refBy edits keep the facts view -/
 theorem FEq_sins {L : List (String × Tag)} {n : String} {t t' : Tag} (h : sget L n = some t)
@@ -513,7 +516,8 @@ theorem gi_tagDone (s : St) (name : String) (result : List Nat) (st : Started) (
       · next ot hot =>
         split
         · next hd =>
-          have hd' : ot.defn = snap.defn := by simpa using hd
+          have hdg : ot.defn = snap.defn ∧ ot.gen = snap.gen := by simpa using hd
+          have hd' : ot.defn = snap.defn := hdg.1
           have hfi : FI s.tags (some (jn, snap, held)) := hj ▸ i.fj.fi
           have hsf := hfi.facts (ot := ot) hot hd'
           have hW : W (tdTag snap ot (ofList result)) = W ot := by
@@ -948,14 +952,16 @@ theorem g_addTag (s : St) (name color defn : String) (f : Facts) (st : Started) 
   next hex =>
   rw [atPair_fst]
   unfold atFinish
-  generalize hnt : (atPair s (atTag color defn f isMark) f isMark).2 = nt
+  generalize hnt : (atPair s (atTagG s.ngen color defn f isMark) f isMark).2 = nt
   have hr : nt.refs = (atTag color defn f isMark).refs := by rw [← hnt]; exact (atPair_refs _ _ _ _).1
-  have hX : (if isMark = true then setTag s name nt else startTagging (setTag s name nt) st.tag).tags
+  have hX : (if isMark = true then setTag { s with ngen := s.ngen + 1 } name nt
+      else startTagging (setTag { s with ngen := s.ngen + 1 } name nt) st.tag).tags
       = sins name nt s.tags := by
     split
     · rfl
     · rw [MgrSettle.startTagging_tags]; rfl
-  have hs := RSpec_foldAdd name nt.refs (if isMark = true then setTag s name nt else startTagging (setTag s name nt) st.tag)
+  have hs := RSpec_foldAdd name nt.refs (if isMark = true then setTag { s with ngen := s.ngen + 1 } name nt
+      else startTagging (setTag { s with ngen := s.ngen + 1 } name nt) st.tag)
   rw [hX] at hs
   refine G_add g (isSome_false hfresh) (fun r => Iff.rfl) ?_ ?_ hs
   · rw [hr]; exact any_isNone_false hex
@@ -1140,12 +1146,13 @@ theorem fj_addTag (s : St) (name color defn : String) (f : Facts) (st : Started)
   · exact fj
   rw [atPair_fst]
   unfold atFinish
-  generalize hnt : (atPair s (atTag color defn f isMark) f isMark).2 = nt
-  obtain ⟨_, e1, e2, e3⟩ := atPair_refs s (atTag color defn f isMark) f isMark
+  generalize hnt : (atPair s (atTagG s.ngen color defn f isMark) f isMark).2 = nt
+  obtain ⟨_, e1, e2, e3⟩ := atPair_refs s (atTagG s.ngen color defn f isMark) f isMark
   rw [hnt] at e1 e2 e3
   apply FJ_foldAdd
-  have hbase : FJ (setTag s name nt) := by
-    apply FJ_setTag_new _ _ _ ?_ ?_ ?_ fj
+  have fj' : FJ { s with ngen := s.ngen + 1 } := ⟨fj.sorted, fj.fi⟩
+  have hbase : FJ (setTag { s with ngen := s.ngen + 1 } name nt) := by
+    apply FJ_setTag_new _ _ _ ?_ ?_ ?_ fj'
     · intro hm
       have := hn.1 hm
       rw [hpn] at this
